@@ -103,7 +103,7 @@ mod imp {
             run($kind, guarded(AssertUnwindSafe(|| { let r: Vec<$O> = roll_call_v!($fi, $v, $v2, $a, Vec<$O>); cells(&r) })))
         };
     }
-    pub fn roll_runs(fi: usize, a: &CallArgs) -> Vec<Cell> {
+    pub fn roll_runs(fi: usize, a: &CallArgs, integral: bool) -> Vec<Cell> {
         let f = &RFNS[fi];
         let xs: Vec<f64> = a.xs.to_vec();
         let ys: Vec<f64> = a.ys.to_vec();
@@ -136,6 +136,15 @@ mod imp {
         if f.kind == Kind::Two {
             runs.push(roll_run!(0, fi, xs, &yo, a, Option<f64>));
             runs.push(roll_run!(0, fi, xo, &ys, a, f64));
+        }
+        // other element types with the same nulls: f32 (NaN) always, Option<i32> (None) for integral series
+        { let x32: Vec<f32> = encv(a.xs); let y32: Vec<f32> = encv(a.ys);
+          runs.push(roll_run!(0, fi, x32, &y32, a, f64));
+          let xo32: Vec<Option<f32>> = encv(a.xs); let yo32: Vec<Option<f32>> = encv(a.ys);
+          runs.push(roll_run!(0, fi, xo32, &yo32, a, Option<f64>)); }
+        if integral {
+            let xi: Vec<Option<i32>> = encv(a.xs); let yi: Vec<Option<i32>> = encv(a.ys);
+            runs.push(roll_run!(0, fi, xi, &yi, a, f64));
         }
         // iterator body: VecDeque<Option<f64>>
         { let dq: VecDeque<Option<f64>> = xo.iter().cloned().collect();
@@ -592,6 +601,7 @@ impl Gen {
         if len > 3 { ws.push(rng.range(2, len as i64 - 1) as usize); ws.push(3) }
         ws.sort(); ws.dedup();
         let scale = 8.0 * (len.max(1) as f64) * max_abs(xs).max(max_abs(ys)).powi(2);
+        let integral = is_integral(xs) && is_integral(ys);
         for &w in ws.iter() {
             let mut mps: Vec<Option<usize>> = vec![None, Some(0)];
             if w > 1 { mps.push(Some(rng.range(1, w as i64) as usize)) } else { mps.push(Some(1)) }
@@ -609,7 +619,7 @@ impl Gen {
                     let cmp = if f.exact { "custom:rel:exact:roll".to_string() } else { format!("custom:rel:1e-7,{}:roll", scale) };
                     self.em.case(&cmp, &tags, &desc,
                         || format!("(enc2 {} {})", vh::rollreg::model_term(f, true, "f", &a), vh::rollreg::model_term(f, true, "o", &a)),
-                        || imp::roll_runs(fi, &a));
+                        || imp::roll_runs(fi, &a, integral));
                 }
             }
         }
